@@ -152,12 +152,30 @@ def gen_wbmix(rng):
     return lines
 
 
+def gen_memrec_x86(rng):
+    """x86: a value accumulated in memory -- load, arithmetic, store to the same address -- so that the store-to-load
+    dependency (with the model's forwarding latency) closes the cycle across the loop end, or inside the body once rotated"""
+    a, b = rng.sample(range(0, 8), 2)
+    base = rng.choice(["%rdx", "%rsi", "%r10"])
+    disp = rng.choice(["", "8", "16"])
+    mem = "%s(%s)" % (disp, base)
+    op = rng.choice(["vaddsd", "vmulsd"])
+    lines = ["vmovsd %s, %%xmm%d" % (mem, a), "%s %%xmm%d, %%xmm%d, %%xmm%d" % (op, b, a, a), "vmovsd %%xmm%d, %s" % (a, mem)]
+    if rng.random() < 0.6:
+        lines.append("addq $1, %rax")
+    if rng.random() < 0.5:
+        lines.append("cmpq %rax, %rcx")
+    if rng.random() < 0.4:
+        lines.insert(1, "vaddsd (%%rax,%%rcx,8), %%xmm%d, %%xmm%d" % (a, a))
+    return lines
+
+
 def gen_kernel(rng, isa, maxlen, kind=None):
     kind = kind or rng.choice(["plain", "plain", "mem", "memdep", "coupled", "wbmix"])
     if kind == "wbmix":
         if isa != "x86":
             return gen_wbmix(rng), None
-        kind = "mem"
+        return gen_memrec_x86(rng), None
     if kind == "coupled":
         return gen_coupled(rng, isa, maxlen), None
     if kind == "memdep":
@@ -186,8 +204,32 @@ def lcd_close(a, b):
     return all(abs(da[k] - db[k]) < 1e-6 for k in da)
 
 
+_SPECIAL = {}
+
+
 def models_for(ctx, isa):
-    return corpus.archs_of(isa, ctx.tier == "quick")
+    """the tier's models of the ISA; in the quick tier plus every model with a non-zero store-to-load forwarding latency (the
+    edge-weight clause of C06 and everything built on it shows only there; with a numeric ROB size first)"""
+    base = list(corpus.archs_of(isa, ctx.tier == "quick"))
+    if ctx.tier != "quick":
+        return base
+    if isa not in _SPECIAL:
+        import re
+
+        extra = []
+        for a in corpus.archs_of(isa, False):
+            if a in base:
+                continue
+            try:
+                head = open(os.path.join(core.REPO, "osaca", "data", a + ".yml"), encoding="utf-8").read(6000)
+            except OSError:
+                continue
+            m = re.search(r"(?m)^store_to_load_forward_latency:\s*([-\d.eE]+)", head)
+            if m and float(m.group(1)) != 0.0:
+                rob = re.search(r"(?m)^ROB_size:\s*(\d+)", head)
+                extra.append((0 if rob else 1, a))
+        _SPECIAL[isa] = [a for _, a in sorted(extra)][:2]
+    return base + _SPECIAL[isa]
 
 
 def setup(ctx, pid, gens, props):
@@ -247,7 +289,10 @@ def kernels_stream(ctx, n, maxlen, kinds=None, real=True, big=False):
     for t in range(n):
         isa = "x86" if t % 2 == 0 else "aarch64"
         arch = rng.choice(models_for(ctx, isa))
-        lines, meta = gen_kernel(rng, isa, maxlen, rng.choice(kinds) if kinds else None)
+        kind_ = rng.choice(kinds) if kinds else None
+        if kind_ in ("wbmix", "memdep") and _SPECIAL.get(isa) and rng.random() < 0.6:
+            arch = rng.choice(_SPECIAL[isa])       # memory recurrences: models with a forwarding latency
+        lines, meta = gen_kernel(rng, isa, maxlen, kind_)
         fd = rng.random() < 0.4
         try:
             shared = sem_of(arch)
